@@ -16,8 +16,8 @@ PLAN = dict(
          "between overlapping operations). clause 2 (c12.faults, c12.eof): one case = (entry point, number of rejected blocks first, Read index k, fault kind) resp. "
          "(entry point, rejected blocks, stream length L). distinct = distinct class keys (operation/variant/rejected-count/accepted-value class; "
          "operation/skipped-value class; operation/variant/rejected/kind/k; .../eof@L)",
-    jobs=both("c12.fidelity", ["avx2", "noadx", "avx", "purego"], shards=(4, 12), floor=1000)
-    + both("c12.retry", ["avx2", "purego"], shards=(1, 2), floor=40)
+    jobs=both("c12.fidelity", ["avx2", "noadx", "avx", "purego", "ia32"], shards=(4, 12), floor=1000)
+    + both("c12.retry", ["avx2", "purego", "ia32"], shards=(1, 2), floor=40)
     + both("c12.faults", ["avx2", "purego"], shards=(2, 8), floor=1000)
     + both("c12.eof", ["avx2", "purego"], shards=(1, 4), floor=500)
     + both("c12.reentrant", ["avx2", "purego"], shards=(2, 8), floor=500),
